@@ -15,6 +15,7 @@ from vf.gen import rng_for, synth_daily, synth_hourly
 from vf.oracle import approved as A
 
 ID = "C14"
+TECHNIQUE = 'runtime monitoring: exhaustive driving of the real settings constructors over every field (pydantic introspection) x value tables with an expected accept/reject table; wrapper on _check_developer_mode counts the fields it inspected; stored-settings snapshots around real fits'
 LEVEL = "exploration"
 NEEDS_NUMBA = True
 CASE_TIMEOUT = 1500
